@@ -69,7 +69,7 @@ def build_response(beh, req_id, marker):
         headers["content-type"] = "text/plain"
     if beh["sess"] != "absent":
         headers["mcp-session-id"] = beh["sess"]
-    result = {"marker": marker, "text": "é \U0001F600  ", "nil": None}
+    result = {"marker": marker, "text": "\u00e9 \U0001F600 \u2028 \u2029 \u0085 end", "nil": None}
     resp = {"jsonrpc": "2.0", "id": req_id, "result": result}
     notif = lambda k: {"jsonrpc": "2.0", "method": "notifications/message", "params": {"marker": marker + k, "level": "info", "data": "d"}}
     body = beh["body"]
@@ -86,6 +86,10 @@ def build_response(beh, req_id, marker):
         msgs = [notif(1), notif(2), resp]
     elif body == "wrongId":
         msgs = [{"jsonrpc": "2.0", "id": "someone-else", "result": result}]
+    elif body == "errNullId":
+        msgs = [{"jsonrpc": "2.0", "id": None, "error": {"code": -32600, "message": "bad request", "data": {"marker": marker}}}]
+    elif body == "errOtherId":
+        msgs = [{"jsonrpc": "2.0", "id": 99, "error": {"code": -32600, "message": "bad request", "data": {"marker": marker}}}]
     if msgs is not None:
         texts = [json.dumps(m, ensure_ascii=False, separators=(",", ":")) for m in msgs]
         if beh["ctype"] == "sse":
